@@ -735,18 +735,22 @@ Proof.
       * intros h [S3 L3] h' okh'.
         pose proof (proj1 (proj1 S3)) as I3.
         assert (A3 : ancs (names h) p) by (eapply keeps_but_ancs; [exact (proj2 S3)|exact A]).
-        assert (S4 : stepN h (apply_perm o e h p)).
-        { unfold apply_perm. destruct (o_keep_perm o); [|apply stepN_refl; exact I3].
-          destruct (e_perm e) as [m|]; [|apply stepN_refl; exact I3]. rewrite Hg. cbn [andb].
-          destruct (is_link h p) eqn:L; [apply stepN_refl; exact I3|].
-          destruct (chmod h p (m mod 4096)) as [h1 ok1] eqn:C. cbn [fst].
-          eapply O_chmod; [exact I3|exact P|exact U| |exact C].
-          apply ancs_nolink_clean; [exact A3|apply is_link_nolink; assumption]. }
-        assert (G4 : good2 f (apply_perm o e h p)) by (eapply good2_trans; [exact (proj1 S3)|exact (proj1 S4)]).
-        destruct (o_keep_xattr o); [|intros [= <- <-]; exact G4].
-        intros H. eapply good2_trans; [exact G4|].
-        apply O_lset_xattrs in H; [exact (proj1 H)|exact (proj1 (proj1 S4))|exact P|exact U|].
-        eapply keeps_ancs; [exact (proj2 S4)|exact A3].
+        (* extended attributes first, then owner + mode *)
+        apply (andthen_elim (stepN h) (good2 f)).
+        -- intros hx okx. destruct (o_keep_xattr o); [|intros [= <- <-]; apply stepN_refl; exact I3].
+           intros H. eapply O_lset_xattrs; [exact I3|exact P|exact U|exact A3|exact H].
+        -- intros hx Sx. eapply good2_trans; [exact (proj1 S3)|exact (proj1 Sx)].
+        -- intros hx Sx hy oky [= <- <-].
+           pose proof (proj1 (proj1 Sx)) as Ix.
+           assert (Ax : ancs (names hx) p) by (eapply keeps_ancs; [exact (proj2 Sx)|exact A3]).
+           assert (S4 : stepN hx (apply_perm o e hx p)).
+           { unfold apply_perm. destruct (o_keep_perm o); [|apply stepN_refl; exact Ix].
+             destruct (e_perm e) as [m|]; [|apply stepN_refl; exact Ix]. rewrite Hg. cbn [andb].
+             destruct (is_link hx p) eqn:L; [apply stepN_refl; exact Ix|].
+             destruct (chmod hx p (m mod 4096)) as [h1 ok1] eqn:C. cbn [fst].
+             eapply O_chmod; [exact Ix|exact P|exact U| |exact C].
+             apply ancs_nolink_clean; [exact Ax|apply is_link_nolink; assumption]. }
+           eapply good2_trans; [exact (proj1 S3)|]. eapply good2_trans; [exact (proj1 Sx)|exact (proj1 S4)].
 Qed.
 
 (* ---- the whole archive -------------------------------------------------------------------------- *)
